@@ -90,6 +90,11 @@ def units(ctx):
         'limitIterators = 10 (termination, pulls <= N + 1, no collection > N '
         'in the result, also as dict key / set member), 21 growing '
         'expressions under memoryQuota = 20000', timeout=600))
+    from contracts import colls3 as _c3
+    from vlib.pyvc.unit import contract_unit as _cu3
+    us += [_cu3(c, world_setup=_c3.setup)
+           for c in _c3.predicate_contracts() + _c3.wrapper_contracts()
+           if 'C08' in c.serves]
     return us
 
 
